@@ -114,6 +114,7 @@ type summary struct {
 }
 
 type e3Engine struct {
+	appCache     map[string]int
 	c            *Ctx
 	p            *Prog
 	objs         map[string]*Obj
@@ -1251,6 +1252,17 @@ func (st *fstate) call(in ssa.Instruction, c *ssa.CallCommon, res ssa.Value) {
 		viaPrm oset // param-relative origins the function value came from
 	}
 	var targets []target
+	if f := c.StaticCallee(); f != nil && inModule(f) {
+		// a shortened re-slice x[:k] handed to a function that appends to that parameter: the append lands in x's own
+		// elements beyond k whenever they fit (append onto spare capacity), exactly as a local append(x[:k], …) does
+		for j, a := range c.Args {
+			if sl, ok := a.(*ssa.Slice); ok && sl.High != nil && sl.Max == nil && e.appendsTo(f, j) {
+				if _, isArr := sl.X.Type().Underlying().(*types.Pointer); !isArr {
+					st.mut(st.get(sl.X), elemType(a.Type()), in, "a shortened re-slice x[:k] is handed to "+shortName(f)+", which appends to it: the elements of x beyond k are overwritten", nil)
+				}
+			}
+		}
+	}
 	if f := c.StaticCallee(); f != nil {
 		if mc, ok := c.Value.(*ssa.MakeClosure); ok {
 			_ = mc
@@ -2093,4 +2105,83 @@ func e3DeriveLexerModel(c *Ctx, rule string) {
 	}
 	r.Count(rule+"-rows", n)
 	r.Expect(rule+"-rows", 25)
+}
+
+// appendsTo: does f (or a module function it hands the value to) append onto its parameter j — i.e. is there an
+// append whose first operand derives from parameter j through φs, re-slices, earlier appends and calls that return it
+func (e *e3Engine) appendsTo(f *ssa.Function, j int) bool {
+	if e.appCache == nil {
+		e.appCache = map[string]int{}
+	}
+	key := fmt.Sprintf("%s#%d", funcKey(f), j)
+	switch e.appCache[key] {
+	case 1:
+		return true
+	case 2, 3:
+		return false // 3 = in progress (recursion): assume no
+	}
+	e.appCache[key] = 3
+	res := false
+	if f.Blocks != nil && j < len(f.Params) {
+		p := ssa.Value(f.Params[j])
+		seen := map[ssa.Value]bool{}
+		var derives func(v ssa.Value, d int) bool
+		derives = func(v ssa.Value, d int) bool {
+			if v == p {
+				return true
+			}
+			if d > 6 || seen[v] {
+				return false
+			}
+			seen[v] = true
+			defer delete(seen, v)
+			switch x := v.(type) {
+			case *ssa.Phi:
+				for _, ed := range x.Edges {
+					if derives(ed, d+1) {
+						return true
+					}
+				}
+			case *ssa.Slice:
+				return derives(x.X, d+1)
+			case *ssa.Call:
+				if isBuiltinCall(x.Common(), "append") {
+					return derives(x.Call.Args[0], d+1)
+				}
+				if g := x.Call.StaticCallee(); g != nil && inModule(g) {
+					for k, a := range x.Call.Args {
+						if derives(a, d+1) && e.appendsTo(g, k) {
+							return true
+						}
+					}
+				}
+			}
+			return false
+		}
+		allInstrs(f, func(in ssa.Instruction) {
+			cl, ok := in.(*ssa.Call)
+			if !ok || res {
+				return
+			}
+			if isBuiltinCall(cl.Common(), "append") {
+				if derives(cl.Call.Args[0], 0) {
+					res = true
+				}
+				return
+			}
+			if g := cl.Call.StaticCallee(); g != nil && inModule(g) && g != f {
+				for k, a := range cl.Call.Args {
+					if derives(a, 0) && e.appendsTo(g, k) {
+						res = true
+					}
+				}
+			}
+		})
+	}
+	if res {
+		e.appCache[key] = 1
+	} else {
+		e.appCache[key] = 2
+	}
+	return res
 }
